@@ -74,6 +74,8 @@ def bxor(a, b):
         y = b[i] if i < len(b) else 0
         if x == 0: out.append(y)
         elif y == 0: out.append(x)
+        elif x == y: out.append(0)
+        elif x in (0, 1) and y in (0, 1): out.append(x ^ y)
         else: raise Top("xor of unknown bits")
     return trim(out)
 
@@ -253,6 +255,11 @@ def evalt(t, widths, fixed, env=None):
                 if a[i] != 0 and b[i] != 0:
                     raise Overlap('addition of overlapping bit ranges')
             return bor(a, b)
+        if op == '-':
+            # a - (some of a's own bits) clears those bits
+            if len(b) <= len(a) and all(y == 0 or y == x for x, y in zip(a, b)):
+                return trim([0 if y != 0 else x for x, y in zip(a, list(b) + [0] * (len(a) - len(b)))])
+            raise Top('subtraction that is not the clearing of own bits')
         if cb and _value(b) > 0 and _value(b) & (_value(b) - 1) == 0:
             sh = _value(b).bit_length() - 1
             if op == '%': return trim(a[:sh])
@@ -265,6 +272,18 @@ def evalt(t, widths, fixed, env=None):
         if not isinstance(t[1], int):
             raise Top(f"non-integer constant {t[1]!r}")
         return const_bits(t[1])
+    if k == 'tupidx':
+        x = t[1]
+        if x[0] == 'call' and x[1] == ('name', 'divmod') and len(x[2]) == 2 and t[2] in (0, 1):
+            return evalt(('binop', '//' if t[2] == 0 else '%', x[2][0], x[2][1]), widths, fixed, env)
+        v = evalt(x, widths, fixed, env)
+        if isinstance(v, tuple) and v[0] == 'tuple' and 0 <= t[2] < len(v[1]):
+            return v[1][t[2]]
+        raise Top(f"element {t[2]} of {sym.show(x)[:60]}")
+    if k == 'call' and t[1] == ('name', 'divmod') and len(t[2]) == 2:
+        return ('tuple', [evalt(('binop', '//', t[2][0], t[2][1]), widths, fixed, env), evalt(('binop', '%', t[2][0], t[2][1]), widths, fixed, env)])
+    if k == 'call' and t[1] == ('name', 'int') and len(t[2]) == 1:
+        return evalt(t[2][0], widths, fixed, env)
     raise Top(f"term kind {k}: {sym.show(t)[:80]}")
 
 def truthv(c, widths, fixed, env=None):
